@@ -278,7 +278,18 @@ def value_origins(f, v, seen):
                 return out
         return {'parameter %s' % f.param_names.get(v.name, v.name)}
     if d.op == 'call':
-        return {d.callee_name() or 'indirect call'}
+        ctx_ = getattr(value_origins, 'ctx', None)
+        n_ = d.callee_name()
+        if ctx_ is not None and n_ in ctx_.unknown_funcs and ctx_.func(n_) is not None and len(seen) < 12:
+            # a helper introduced by refactoring: the value is whatever it returns
+            h = ctx_.func(n_)
+            out = set()
+            for r in h.instrs():
+                if r.op == 'ret' and r.ops:
+                    out |= value_origins(h, r.ops[0], set())
+            if out:
+                return out
+        return {n_ or 'indirect call'}
     if d.op == 'bitcast':
         return value_origins(f, d.ops[0], seen)
     if d.op == 'phi':
